@@ -38,22 +38,26 @@ impl TTLTicker {
 
     pub(crate) fn put(self: &Arc<TTLTicker>, key_id: KeyId, expire_after: ExpireAfter) {
         let shard_index = self.shard_index(&expire_after);
+        #[cfg(cached_verif)] crate::cache::verif::point("T_Put", shard_index as i64);
         self.shards[shard_index].write().insert(key_id, expire_after);
     }
 
     pub(crate) fn update(self: &Arc<TTLTicker>, key_id: KeyId, old_expiry: &ExpireAfter, new_expiry: ExpireAfter) {
         {
             let shard_index = self.shard_index(old_expiry);
+            #[cfg(cached_verif)] crate::cache::verif::point("T_UpdRemove", shard_index as i64);
             self.shards[shard_index].write().remove(&key_id);
         }
         {
             let shard_index = self.shard_index(&new_expiry);
+            #[cfg(cached_verif)] crate::cache::verif::point("T_UpdInsert", shard_index as i64);
             self.shards[shard_index].write().insert(key_id, new_expiry);
         }
     }
 
     pub(crate) fn delete(self: &Arc<TTLTicker>, key_id: &KeyId, expire_after: &ExpireAfter) {
         let shard_index = self.shard_index(expire_after);
+        #[cfg(cached_verif)] crate::cache::verif::point("T_Del", shard_index as i64);
         self.shards[shard_index].write().remove(key_id);
     }
 
@@ -92,20 +96,27 @@ impl TTLTicker {
         let keep_running = self.keep_running.clone();
         let receiver = tick(tick_duration);
 
+        #[cfg(cached_verif)] let verif_sink = crate::cache::verif::current();
         thread::spawn(move || {
+            #[cfg(cached_verif)] let _verif_guard = crate::cache::verif::adopt(verif_sink, "sweeper");
             while let Ok(_instant) = receiver.recv() {
+                #[cfg(cached_verif)] crate::cache::verif::point("S_Tick", 0);
                 let now = clock.now();
                 let shard_index = self.shard_index(&now);
 
+                #[cfg(cached_verif)] crate::cache::verif::point("S_Sweep", shard_index as i64);
+                #[cfg(cached_verif)] crate::cache::verif::event("sweep", &[crate::cache::verif::secs(&now), crate::cache::verif::nanos(&now), shard_index as i64]);
                 self.shards[shard_index].write().retain(|key, expire_after| {
                     let has_not_expired = now.le(expire_after);
                     if !has_not_expired {
                         debug!("Key with id {} has expired", key);
+                        #[cfg(cached_verif)] crate::cache::verif::event("expired", &[*key as i64, crate::cache::verif::secs(expire_after), crate::cache::verif::nanos(expire_after)]);
                         (evict_hook)(key);
                     }
                     has_not_expired
                 });
 
+                #[cfg(cached_verif)] crate::cache::verif::point("S_Done", shard_index as i64);
                 if !keep_running.load(Ordering::Acquire) {
                     info!("Shutting down TTLTicker");
                     drop(receiver);
@@ -114,6 +125,18 @@ impl TTLTicker {
             }
         });
     }
+}
+
+#[cfg(cached_verif)]
+impl TTLTicker {
+    /// Per shard `(key id, expiry seconds, expiry nanoseconds)`; `None` for a shard whose lock is held.
+    pub(crate) fn verif_shards(&self) -> Vec<Option<Vec<(u64, i64, i64)>>> {
+        self.shards.iter().map(|shard| shard.try_read().map(|entries| {
+            entries.iter().map(|(key_id, expiry)| (*key_id, crate::cache::verif::secs(expiry), crate::cache::verif::nanos(expiry))).collect()
+        })).collect()
+    }
+
+    pub(crate) fn verif_keep_running(&self) -> bool { self.keep_running.load(Ordering::Acquire) }
 }
 
 #[cfg(test)]
